@@ -138,7 +138,7 @@ def cov_case(ctx, vals, d):
                     return
 
 
-def p2_case(ctx, rng, lines, posts):
+def p2_case(ctx, rng, lines, posts, vlines, vposts):
     spec = p2lib.gen_grid(rng)
     shape = rng.choice([(2,), (3,), (2, 2), (2, 1, 2)])
     ncomp = int(np.prod(shape))
@@ -148,9 +148,19 @@ def p2_case(ctx, rng, lines, posts):
     est = p2lib.make(spec)
     grid = [p2lib.make(spec) for _ in range(ncomp)]
     diverse = False
+    qd = [float(t) for t in est.q_desired]
     for i in range(n):
         x = np.array([cols[c][i] for c in range(ncomp)], dtype=float).reshape(shape)
+        pre = [p2lib.state(est, c) for c in range(ncomp)]
         est.accumulate(x)
+        # lock-step with the ARRAY model (marker-major rows, np.where selections)
+        nrows = len(pre[0][1])
+        hflat = [pre[c][1][r] for r in range(nrows) for c in range(ncomp)]
+        pflat = [pre[c][2][r] for r in range(len(qd)) for c in range(ncomp)]
+        vlines.append('p2f.vstep %d %d | %s | %s | %s | %s' % (ncomp, pre[0][0], ' '.join(p2lib.hexf(t) for t in qd),
+                      ' '.join(p2lib.hexf(t) for t in hflat), ' '.join(p2lib.hexf(t) for t in pflat),
+                      ' '.join(p2lib.hexf(cols[c][i]) for c in range(ncomp))))
+        vposts.append((c07.small(case), i, [p2lib.state(est, c) for c in range(ncomp)], pre, [cols[c][i] for c in range(ncomp)], qd))
         moved = []
         for c in range(ncomp):
             before = p2lib.state(grid[c])
@@ -225,11 +235,39 @@ def check(ctx):
                              mv if isinstance(mv, str) else {k: str(mv.get(k)) for k in bad}, 'at read %d keys %s' % (i, bad))
                 break
     # P²: array estimator vs grid of scalar estimators, components in different branches; lock-step per component
-    l2, p2 = [], []
+    l2, p2, vl, vp = [], [], [], []
     for _ in range(ctx.scale(60, 600)):
-        case = p2_case(ctx, rng, l2, p2)
+        case = p2_case(ctx, rng, l2, p2, vl, vp)
         c07.run_case(ctx, case, rng, l2, p2)
     c07.compare_lockstep(ctx, l2, p2)
+    compare_vector_lockstep(ctx, vl, vp)
+
+
+def compare_vector_lockstep(ctx, vlines, vposts):
+    mout = core.run_driver(vlines) if vlines else []
+    for (case, i, posts, pres, xs, qd), ml in zip(vposts, mout):
+        ncomp = len(posts)
+        n, hs, ps = ml.split('|')
+        hs = [p2lib.unhex(t) for t in hs.split()]
+        ps = [p2lib.unhex(t) for t in ps.split()]
+        ctx.count('vector_lockstep_steps')
+        ok = int(n) == posts[0][0]
+        for c in range(ncomp):
+            mh = hs[c::ncomp]
+            mp = ps[c::ncomp]
+            if not (len(mh) == len(posts[c][1]) and all(p2lib.close_rel(a, b) for a, b in zip(mh, posts[c][1]))
+                    and mp == posts[c][2]):
+                ok = False
+        if ok:
+            continue
+        mg = []
+        for c in range(ncomp):
+            if len(pres[c][1]) == len(qd):
+                p2lib.paper_step(dict(p=qd, N=pres[c][0], q=list(pres[c][1]), n=[int(t) + 1 for t in pres[c][2]]), xs[c], margins=mg)
+        if mg and min(mg) < 1e-9:
+            ctx.count('vector_lockstep_ambiguous_under_rounding')
+        else:
+            ctx.disagree('p2-array-model-lockstep', case, dict(step=i, post=posts), ml[:400])
 
 
 def replay(ctx, data):
